@@ -277,6 +277,32 @@ Section ProjProof.
     exists pf, nonprojecting_embed_tail E = POk (E, pf) /\ pf = PFNone /\ pf_apply D d pf x = None.
   Proof. exists PFNone. repeat split. Qed.
 
+  (* packaged statements used by Properties_C07.v *)
+  Theorem mean_is_training_mean_all N D (Xs : list (list F)) :
+    wf_mat N D Xs ->
+    compute_mean_exec D Xs = POk (vtab D (mean_vec N (mof Xs))) /\
+    (of_nat N <> 0 -> training_mean N D (mof Xs) (mean_vec N (mof Xs))) /\
+    (forall m, of_nat N <> 0 -> training_mean N D (mof Xs) m -> veq D m (mean_vec N (mof Xs))).
+  Proof.
+    intros H. split; [exact (compute_mean_exec_ok N D Xs H)|]. split.
+    - intros HN. exact (mean_is_training_mean N D (mof Xs) HN).
+    - intros m HN. exact (training_mean_unique N D (mof Xs) m HN).
+  Qed.
+
+  Theorem project_affine_all D d (P : mat F) (m : vec F) :
+    affine_on D d (mpi_project D P m) /\
+    (forall k (w : nat -> F) (xs : nat -> vec F) c, sumn k w = 1 ->
+       mpi_project D P m (fun t => sumn k (fun j => w j * xs j t)) c =
+       sumn k (fun j => w j * mpi_project D P m (xs j) c)) /\
+    (forall x y c, mpi_project D P m x c - mpi_project D P m y c =
+                   sumn D (fun t => P t c * (x t - y t))) /\
+    (forall c, mpi_project D P m m c = 0).
+  Proof.
+    split; [exact (project_affine D d P m)|].
+    split; [exact (project_affine_general D P m)|].
+    split; [exact (project_linear_part D P m)|exact (project_mean_zero D P m)].
+  Qed.
+
 End ProjProof.
 
 (* ---------------- soundness of the decision procedures (Qc) ---------------- *)
@@ -370,4 +396,17 @@ Proof.
   - apply forallb_forall. intros i Hi. apply in_seq in Hi.
     apply vwithin_b_ok. apply veq_vwithin; [apply Qcle_refl|]. intros c Hc.
     apply Hrows; [lia|assumption].
+Qed.
+
+Theorem projecting_output_Qc (N D d : nat) (P Xs : list (list Qc)) :
+  N <> 0 -> wf_mat D d P -> wf_mat N D Xs ->
+  exists Y m,
+    projecting_embed_tail D d P Xs = POk (Y, PFMatrix P m) /\
+    output_consistent N D d (mof Xs) (mof Y) (mof P) (vof m) /\
+    output_consistent_tol_b N D d (Q2Qc 0) Xs Y P m = Some true.
+Proof.
+  intros HN HP HX.
+  destruct (@projecting_embed_tail_ok Qc QcOps QcField N D d P Xs HP HX) as [Y [m [H1 [_ [_ [H4 _]]]]]].
+  exists Y, m. split; [assumption|]. split; [apply H4; apply Qc_of_nat_neq0; assumption|].
+  eapply model_output_passes; eassumption.
 Qed.
